@@ -509,6 +509,19 @@ def enableRbf (c : Cfg) : Bool := c.minRbfRate > c.minFeeRate
 def minReplaceFee (s : Pool) (ids : List Nat) (size : Nat) : Nat :=
   (ids.filterMap (getEntry s)).foldl (fun acc e => acc + e.tx.fee) 0 + rateFee s.cfg.minRbfRate size
 
+/-- `TxPool::min_replace_fee(tx)` for a pooled entry (what `get_transaction` reports as `min_replace_fee`):
+    the entry itself and its pooled descendants, every id once (`calculate_min_replace_fee` collects them
+    into a `HashMap` keyed by id), plus the increment for the entry's own size; `None` when RBF is off.
+    (The Rust code unwraps the entry: it is called for pooled entries only; `none` here for an id that is
+    not pooled.) -/
+def minReplaceFeeOf (s : Pool) (id : Nat) : Option Nat :=
+  if enableRbf s.cfg then
+    match getEntry s id with
+    | none => none
+    | some e =>
+      some (minReplaceFee s (dedup (id :: (calcDesc s.links id).filter fun d => (getEntry s d).isSome)) e.tx.size)
+  else none
+
 /-- `TxPool::check_rbf` -/
 def checkRbf (s : Pool) (t : Tx) : RbfRes :=
   let conflicts := conflictIds s t
